@@ -122,15 +122,15 @@ def check_image(ctx, img, parts, meta, tag):
         case["unencodable_tuning"] = True
     if not ctx.require("export finishes without exception", case, r.exc is None, r.exc_name):
         return
-    if case.get("unencodable_tuning"):
-        return
     got = {}
     for pth, b in tree.items():
         w = R.parse_wav(b)
         if not ctx.require("every written file is a well-formed WAV", dict(case, file=pth), w["ok"], w["why"]):
             continue
         got[pth] = (w["channels"], w["rate"], w["data"])
-    ctx.require("exactly one WAV per sample / per L-R pair at <partition>/<volume>/<name>.wav, nothing else", case,
+    missing = sorted(set(exp) - set(got))
+    ctx.require("exactly one WAV per sample / per L-R pair at <partition>/<volume>/<name>.wav, nothing else",
+                dict(case, only_unencodable_missing=(case.get("unencodable_tuning") is True and missing == ["A/V/LOWTUNE.wav"] and not (set(got) - set(exp)))),
                 sorted(got) == sorted(exp) and sorted(reported) == sorted(exp), {"written": sorted(got), "expected": sorted(exp)})
     for pth, (ch, rate, wins) in exp.items():
         if pth not in got:
@@ -159,6 +159,8 @@ def check_image(ctx, img, parts, meta, tag):
     mod = {}
     for comps, rate, ch, pcm in mv[1]:
         mod["/".join("".join(map(chr, c)) for c in comps) + ".wav"] = (ch, rate, bytes(pcm))
+    if case.get("unencodable_tuning"):
+        mod.pop("A/V/LOWTUNE.wav", None)      # the WAV header encoding is C04's model, not part of akai_export (known finding D16)
     ctx.agree("akai_export.paths", case, sorted(got), sorted(mod))
     for pth in sorted(set(got) & set(mod)):
         gch, grate, gdata = got[pth]
